@@ -34,6 +34,7 @@ def check(run, tier, seed, replay=None, only=None):
     for s in range(2 if quick else 6):
         stages.append(("resample-%d" % s, ["--mode", "resample", "--k", 16, "--budget", 250 if quick else 1500,
                                            "--seed", seed * 100 + 60 + s]))
+    stages.append(("huge-0", ["--mode", "huge", "--budget", 1 if quick else 3, "--seed", seed * 100 + 90]))
     core.build_driver("stream_drv", "rel")
     res = core.parallel([mc] + [lambda n=n, a=a: stream_stage(run, n, a, timeout=1500) for n, a in stages])
     run.add_tlc(res[0], "MC_Stream/Multi (fixed textbook phase exists; polyphase impl = chain for all framings)")
